@@ -285,13 +285,20 @@ def run(ctx):
                                                                  cls="core-useReplaceRefs-true-overrides-no-replace-objects" if "useReplaceRefs" in what else None))
             # shallow marker: refused however the repository is addressed — a regular file in one copy, a symbolic link to the
             # real file in the other (the layout the Android `repo` tool leaves; git follows the link)
+            shallow_by_git = {}
             for gd in (gitdir, bare):
                 target = os.path.join(gd, "shallow")
                 if gd == bare or it % 2:
                     target = os.path.join(scratch, "shallow-real-%d-%s" % (it, os.path.basename(gd)))
                     os.symlink(target, os.path.join(gd, "shallow"))
+                # what the file holds: an entry with its LF, the same without the final LF, nothing at all, a blank line, two
+                # entries of which the last lacks its LF — git (rev-parse --is-shallow-repository) is the judge of each
+                h0, h1 = sc.oids[commits[0]].hex(), sc.oids[commits[-1]].hex()
+                content = [h0 + "\n", h0, "", "\n", h1 + "\n" + h0][(it + (2 if gd == bare else 0)) % 5]
                 with open(target, "w") as f:
-                    f.write(sc.oids[commits[0]].hex() + "\n")
+                    f.write(content)
+                judge = subprocess.run(["git", "--git-dir", gd, "rev-parse", "--is-shallow-repository"], env=env, stdout=subprocess.PIPE, stderr=subprocess.PIPE)
+                shallow_by_git[gd] = (judge.returncode != 0 or judge.stdout.strip() == b"true", content)
             plain = os.path.join(scratch, "plain%d" % it)
             os.makedirs(plain, exist_ok=True)
             lnk2 = os.path.join(plain, "link-to-subdir")
@@ -303,16 +310,19 @@ def run(ctx):
             if os.path.isdir(wt):
                 sruns["worktree"] = dict(cwd=wt, env=env)
             for mode, kw in sruns.items():
+                is_shallow, content = shallow_by_git[bare if mode == "bare" else gitdir]
+                if not is_shallow:
+                    continue
                 sh = subprocess.run([ctx["bins"]["sizer"]] + args, stdout=subprocess.PIPE, stderr=subprocess.PIPE, **kw)
-                res.case(("shallow", mode, tuple(sc.oids)), True)
+                res.case(("shallow", mode, tuple(sc.oids), content), True)
                 if sh.returncode == 0 or sh.stdout or b"panic" in sh.stderr or b"goroutine " in sh.stderr:
                     res.violations.append(vlib.Violation(
-                        "a shallow repository addressed via %s was measured (or crashed) instead of being refused" % mode, inp,
+                        "a shallow repository addressed via %s was measured (or crashed) instead of being refused" % mode, dict(inp, shallow_file=content),
                         expected="non-zero exit, empty stdout, an error message",
                         observed="rc=%d stdout=%r stderr=%r" % (sh.returncode, sh.stdout[:120], sh.stderr[:160])))
             sh = subprocess.run(["git", "-C", d, "sizer"] + args, cwd=scratch, env=env, stdout=subprocess.PIPE, stderr=subprocess.PIPE)
             res.case(("shallow", "git -C", tuple(sc.oids)), True)
-            if sh.returncode == 0 or sh.stdout:
+            if shallow_by_git[gitdir][0] and (sh.returncode == 0 or sh.stdout):
                 res.violations.append(vlib.Violation("a shallow repository addressed via git -C was measured instead of refused", inp,
                                                      expected="non-zero exit, empty stdout", observed=sh.stdout[:200].decode()))
             shutil.rmtree(d, ignore_errors=True)
